@@ -152,7 +152,7 @@ var plans = map[string]plan{
 	"C14": {
 		Level:       "exploration",
 		Rule:        "case = one execution: G goroutines (8..64) at GOMAXPROCS 2..16, each running hundreds of create/use/release cycles of every pooled type (BufferWriter/BufferReader over DefaultWriter/DefaultReader with yielding sinks and sources, the three skip decoders incl. values > 4 KiB, TTHeader bytes- and stream-backed, Binary.ReadString/ReadBinary with the span allocator on, FastMarshal/FastUnmarshal, MarshalFastMsg) with payload bytes that encode (goroutine, iteration, offset), plus Get/Item/Len on freshly loaded shared maps whose first lookups happen concurrently. Oracles: the Go race detector (reports parsed from the log, de-duplicated by stack pair) and each goroutine's comparison with its own expected bytes. The monitor keeps only goroutine-local state until the join, so it adds no synchronisation. Builds: -race, -race with the yield-injecting pool shim (thorough), plain at 10x iterations (contamination only). Non-trivial iff pooled objects were observed in >= 2 goroutines in that execution; distinct by (build, G, P, repetition, seed).",
-		Required:    []string{"pooled objects used by >= 2 goroutines", "executions", "cycles writer+reader", "cycles skip-decoders", "cycles ttheader", "cycles binary+fastcodec", "cycles shared-maps", "cycles own-maps", "cycles peek-retain", "cycles unknown-fields"},
+		Required:    []string{"pooled objects used by >= 2 goroutines", "executions", "cycles writer+reader", "cycles skip-decoders", "cycles ttheader", "cycles binary+fastcodec", "cycles shared-maps", "cycles own-maps", "cycles peek-retain", "cycles unknown-fields", "cycles shared-header-param"},
 		Assumptions: []string{"absence of a race report says nothing about interleavings that were not produced"},
 		Quick:       []job{{"race", 4}, {"plain", 2}},
 		Thorough:    []job{{"race", 12}, {"yield", 6}, {"plain", 6}, {"go126-race", 6}}, // (no gcstress: clobberfree touches every freed buffer of 64 goroutines, RSS only)
